@@ -1161,6 +1161,14 @@ impl VisitMut for Pass {
                     }
                 }
             }
+            if let Some(n) = ordinal {
+                for k in 0..self.proofs.len() {
+                    if !self.used_proofs[k] && self.proofs[k].0 == format!("before_loop {}", n) {
+                        self.used_proofs[k] = true;
+                        out.push(Self::proof_stmt(k));
+                    }
+                }
+            }
             out.push(st);
             if let Some(n) = ordinal {
                 for k in 0..self.proofs.len() {
